@@ -195,6 +195,11 @@ class MultiStepReplayBuffer(ReplayBuffer):
         super().add(n_step_data)
         return self.n_step_buffer[0]
 
+    def clear(self) -> None:
+        """Clear all transitions from the buffer, including the n-step window."""
+        super().clear()
+        self.n_step_buffer.clear()
+
     def sample_from_indices(self, idxs: torch.Tensor) -> TensorDict:
         """Sample a batch of transitions from the buffer using the provided indices.
 
@@ -310,6 +315,14 @@ class PrioritizedReplayBuffer(ReplayBuffer):
         for i in range(n_transitions):
             self._update_priority(self.tree_ptr, self.max_priority)
             self.tree_ptr = (self.tree_ptr + 1) % self.max_size
+
+    def clear(self) -> None:
+        """Clear all transitions from the buffer, including their priorities."""
+        super().clear()
+        self.max_priority = 1.0
+        self.tree_ptr = 0
+        self.sum_tree = SumSegmentTree(self.sum_tree.capacity)
+        self.min_tree = MinSegmentTree(self.min_tree.capacity)
 
     def _update_priority(self, idx: int, priority: float) -> None:
         """Update the priority of an experience in the buffer.
